@@ -1507,7 +1507,7 @@ class Pool:
                  for i, x in enumerate(task_batches)),
                 result._set_length,
             ))
-            return (item for chunk in result for item in chunk)
+            return _ChunkFlattener(result)
 
     def imap_unordered(self, func, iterable, chunksize=1,
                        lost_worker_timeout=None):
@@ -1538,7 +1538,7 @@ class Pool:
                  for i, x in enumerate(task_batches)),
                 result._set_length,
             ))
-            return (item for chunk in result for item in chunk)
+            return _ChunkFlattener(result)
 
     def apply_async(self, func, args=(), kwds={},
                     callback=None, error_callback=None, accept_callback=None,
@@ -2115,6 +2115,29 @@ class IMapIterator:
     def worker_pids(self):
         # only workers holding a part that has not produced its result yet
         return list(self._worker_pids.values())
+
+class _ChunkFlattener:
+    """Iterates over the items of the chunks an imap iterator yields.
+
+    (A generator expression cannot be used for this: the error raised
+    for a failed chunk would finish the generator and the remaining
+    chunks would never be delivered.)"""
+
+    def __init__(self, result):
+        self._result = result
+        self._chunk = iter(())
+
+    def __iter__(self):
+        return self
+
+    def next(self, timeout=None):
+        while 1:
+            try:
+                return next(self._chunk)
+            except StopIteration:
+                self._chunk = iter(self._result.next(timeout))
+
+    __next__ = next
 
 #
 # Class whose instances are returned by `Pool.imap_unordered()`
